@@ -88,3 +88,14 @@ Proof.
     destruct (index_of (fun cs => bool_decide (fst cs = c2)) l) as [j2|] eqn:J2; [|discriminate].
     cbn in H1, H2. injection H1 as <-. injection H2 as ->. exact (IH j1 eq_refl eq_refl).
 Qed.
+
+(** environment values, parties, policies, assets and types of an accepted program carry pairwise
+    different names: none of them is hidden by another in the program scope *)
+Theorem top_level_names_unique p : analyze_ok p = true ->
+  NoDup (map fst (sp_env p) ++ sp_parties p ++ map fst (sp_policies p) ++ map (fun a => fst (fst a)) (sp_assets p) ++ map td_name (sp_types p)).
+Proof.
+  unfold analyze_ok, program_ok, names_distinct. intros H.
+  apply andb_true_iff in H as [H _]. apply andb_true_iff in H as [H _]. apply andb_true_iff in H as [H _].
+  apply andb_true_iff in H as [H _]. apply andb_true_iff in H as [H _]. apply andb_true_iff in H as [_ H].
+  apply nodupb_NoDup. exact H.
+Qed.
